@@ -261,12 +261,12 @@ class InjectedAbort(Exception):
 class AbortPlan:
     def __init__(self):
         self.armed = None  # (site, k)
-        self.counts = {"gfunc": 0, "simulate": 0}
+        self.counts = {"gfunc": 0, "simulate": 0, "sts": 0}
         self.fired = []
 
     def arm(self, site: str, k: int):
         self.armed = (site, k)
-        self.counts = {"gfunc": 0, "simulate": 0}
+        self.counts = {"gfunc": 0, "simulate": 0, "sts": 0}
 
     def disarm(self):
         self.armed = None
@@ -336,9 +336,20 @@ class GFuncMemo:
 
 @contextlib.contextmanager
 def simulate_abortable(aborts: AbortPlan):
+    """Abort points: entry of GHE.simulate, and ("sts") the k-th tridiagonal solve *inside* the short-time-step
+    computation (module attribute ghedesigner.radial_numerical_borehole.dgtsv), i.e. a true mid-computation interruption."""
+    import ghedesigner.radial_numerical_borehole as rnb
     from ghedesigner.ground_heat_exchangers import GHE
 
     orig = GHE.simulate
+    orig_dgtsv = rnb.dgtsv
+
+    def dgtsv(*a, **kw):
+        if aborts.armed and aborts.armed[0] == "sts":
+            aborts.tick("sts")
+        return orig_dgtsv(*a, **kw)
+
+    rnb.dgtsv = dgtsv
 
     def simulate(self, *a, **kw):
         # signature-agnostic on purpose: a changed repository may add parameters
@@ -350,6 +361,7 @@ def simulate_abortable(aborts: AbortPlan):
         yield
     finally:
         GHE.simulate = orig
+        rnb.dgtsv = orig_dgtsv
 
 
 # ------------------------------------------------------------------------------------------ in-process CLI
